@@ -255,7 +255,7 @@ class AtomicGridsIndexer:
         assert theta_gq.shape == (self.all_weights.size, stride)
         assert theta_rlmq.dtype == np.float64
         assert theta_gq.dtype == np.float64
-        assert nalpha + offset <= stride
+        assert 0 <= offset and nalpha + offset <= stride
         if a2y:
             fn = libcider.reduce_angc_to_ylm
         else:
